@@ -254,21 +254,11 @@ class Harness:
 
         return type_resolver
 
-    # ---------------------------------------------------------------- scalars
-    def register_scalars(self):
-        for n, d in self.schema["types"].items():
-            if d["kind"] == "SCALAR":
-                codec = CODECS[d.get("codec", "tagged")]
-                Scalar(n, schema_name=self.name)(make_scalar(codec))
-
-    def register_directives(self):
-        for n in self.schema.get("directives") or {}:
-            if n in ("skip", "include", "deprecated", "nonIntrospectable"):
-                continue
-            Directive(n, schema_name=self.name)(make_counting_directive(self, n))
-
-    # ---------------------------------------------------------------- build
-    def register(self):
+    # ---------------------------------------------------------------- registration
+    def registration_steps(self):
+        """one thunk per decorator application, so that callers (C17) can interleave the
+        registrations of several bundles"""
+        steps = []
         default_fields = set(self.plan.get("default_fields") or ())
         conc = self.plan.get("concurrency") or {}
         for tn, td in self.schema["types"].items():
@@ -289,11 +279,22 @@ class Harness:
                     kw["parent_concurrently"] = cc.get("parent")
                 elif self.plan.get("inherit_parent_concurrency"):
                     kw["parent_concurrently"] = None
-                Resolver(coord, schema_name=self.name, **kw)(self.make_resolver(tn, fn))
+                steps.append(lambda coord=coord, kw=kw, tn=tn, fn=fn: Resolver(coord, schema_name=self.name, **kw)(self.make_resolver(tn, fn)))
         for an in self.plan.get("tr_type") or ():
-            TypeResolver(an, schema_name=self.name)(self.make_type_resolver("type"))
-        self.register_scalars()
-        self.register_directives()
+            steps.append(lambda an=an: TypeResolver(an, schema_name=self.name)(self.make_type_resolver("type")))
+        for n, d in self.schema["types"].items():
+            if d["kind"] == "SCALAR":
+                steps.append(lambda n=n, d=d: Scalar(n, schema_name=self.name)(make_scalar(CODECS[d.get("codec", "tagged")])))
+        for n in self.schema.get("directives") or {}:
+            if n in ("skip", "include", "deprecated", "nonIntrospectable"):
+                continue
+            factory = getattr(self, "directive_factory", None) or (lambda n: make_counting_directive(self, n))
+            steps.append(lambda n=n, factory=factory: Directive(n, schema_name=self.name)(factory(n)))
+        return steps
+
+    def register(self):
+        for step in self.registration_steps():
+            step()
 
     async def build(self, **kw):
         self.register()
